@@ -83,6 +83,47 @@ let run_hist ic =
     done
   with End_of_file -> ())
 
+(* function-level cases for the implementation models (same lines as harness/drive_chunkfn.c, drive_mcache.c) *)
+let show_ints l = String.concat " " (List.map (fun z -> string_of_int (int_of_z z)) l)
+
+let run_fn ic =
+  (try
+    while true do
+      let line = input_line ic in
+      match toks line with
+      | [] -> ()
+      | kw :: rest ->
+        let n = List.map int_of_string rest in
+        (match n with
+         | nt :: nd :: r ->
+           let d = take nd r and c = take nd (drop nd r) in
+           let tl = drop (2 * nd) r in
+           if kw = "P" then
+             (match tl with
+              | [pos; len; dn] -> print_string (show_ints (fn_case (z_of_int nt) (zl d) (zl c) (z_of_int pos) (z_of_int len) (z_of_int dn)) ^ "\n")
+              | _ -> print_string "badline\n")
+           else print_string (show_ints (fn_case_chunk (z_of_int nt) (zl d) (zl c) (zl (take nd tl))) ^ "\n")
+         | _ -> print_string "badline\n")
+    done
+  with End_of_file -> ())
+
+let run_mc ic =
+  (try
+    while true do
+      let line = input_line ic in
+      match List.map int_of_string (toks line) with
+      | [] -> ()
+      | maxc :: np :: psize :: fill :: nops :: r ->
+        let rec ops k l = if k = 0 then [] else match l with
+          | a :: b :: c :: tl -> ((z_of_int a, z_of_int b), z_of_int c) :: ops (k - 1) tl
+          | _ -> failwith "short ops" in
+        let (outs, fin) = mc_test (z_of_int maxc) (z_of_int np) (z_of_int psize) (z_of_int fill) (ops nops r) in
+        let show pg = "[ " ^ String.concat "" (List.map (fun z -> string_of_int (int_of_z z) ^ " ") pg) ^ "] " in
+        print_string (String.concat "" (List.map show outs) ^ "S " ^ String.concat "" (List.map show fin) ^ "\n")
+      | _ -> print_string "badline\n"
+    done
+  with End_of_file -> ())
+
 let () =
   let mode, file =
     if Array.length Sys.argv > 2 then Sys.argv.(1), Sys.argv.(2)
@@ -90,4 +131,6 @@ let () =
   let ic = if file = "-" then stdin else open_in file in
   match mode with
   | "hist" -> run_hist ic
+  | "fn" -> run_fn ic
+  | "mc" -> run_mc ic
   | _ -> prerr_endline "unknown mode"; exit 2
